@@ -106,8 +106,15 @@ func blockIdentityScenario(c *vf.Ctx, si int) {
 			}
 			delivered++
 			c.Eval(1)
-			res, err := nut.AddBlock(rig.EncBlock(cp))
-			cd := map[string]interface{}{"scenario": name, "height": no, "alteration": a.name, "result": res}
+			// pushed by a peer (block notice / get-block response) or handed over by the syncer
+			via := []string{"peer", "syncer"}[r.Intn(2)]
+			deliver := nut.AddBlock
+			if via == "syncer" {
+				deliver = nut.AddBlockSync
+			}
+			res, err := deliver(rig.EncBlock(cp))
+			c.Count("blockid_altered_via/"+via, 1)
+			cd := map[string]interface{}{"scenario": name, "height": no, "alteration": a.name, "via": via, "result": res}
 			if err != nil {
 				fail("node-died", fmt.Sprintf("%s height %d %s: %v", name, no, a.name, err), cd)
 				return
@@ -125,7 +132,11 @@ func blockIdentityScenario(c *vf.Ctx, si int) {
 			c.Nontrivial(fmt.Sprintf("%s|%d|%s", name, no, a.name))
 		}
 		// the genuine block must still be accepted and become best
-		res, err := nut.AddBlock(st.Rsp.Block)
+		deliverG := nut.AddBlock
+		if r.Intn(2) == 0 {
+			deliverG = nut.AddBlockSync
+		}
+		res, err := deliverG(st.Rsp.Block)
 		cd := map[string]interface{}{"scenario": name, "height": no, "result": res}
 		if err != nil {
 			fail("node-died", fmt.Sprintf("%s height %d genuine: %v", name, no, err), cd)
